@@ -135,7 +135,7 @@ def run(ctx, report: Report) -> None:
                                  f'{desc["selector"]} ({which}, flags={fl}): value {res[1]!r} - {side}')
 
     # ---- R3 --------------------------------------------------------------------------------------------
-    r3 = report.rule('C01-R3', 'tokenizer, dispatch and regex-group tables agree', floor=13)
+    r3 = report.rule('C01-R3', 'tokenizer, dispatch and regex-group tables agree', floor=11)
     # every token kind the tokenizer can produce has a handler that records it (or refuses it), and the handler reads only groups
     # the token's pattern defines: parse_selectors interpreted on one token of each kind
     from .sem import single_token_table
@@ -213,7 +213,7 @@ def run(ctx, report: Report) -> None:
     # what each of these combinators designates is decided by the relations table of R1, whatever the dispatch looks like
 
     # ---- R5 (decision tables by partial evaluation) ------------------------------------------------------
-    r5 = report.rule('C01-R5', 'every IR field is consulted, conjunctively (decision tables)', floor=49)
+    r5 = report.rule('C01-R5', 'every IR field is consulted, conjunctively (decision tables)', floor=52)
     from .sem import helper_tables, match_selectors_table
     match_selectors_table(ctx, r5)
     helper_tables(ctx, r5)
@@ -223,7 +223,7 @@ def run(ctx, report: Report) -> None:
     from .sem import identity_table
     identity_table(ctx, r5)
 
-    r7 = report.rule('C01-R7', 'a comma resets every piece of per-alternative parser state (parsed token sequences)', floor=5)
+    r7 = report.rule('C01-R7', 'a comma resets every piece of per-alternative parser state (parsed token sequences)', floor=2)
     from .sem import comma_tables
     comma_tables(ctx, r7)
 
